@@ -23,7 +23,7 @@ from ..runner import Failure
 
 LEVEL = "exploration"
 RULE = (
-    "Hypothesis RuleBasedStateMachine (seeded with VERIF_SEED) over a fixed pool of 58 queries: 14 set_index and 8 sort_values variants on two frames (divisions LRU, capacity 10), 14 "
+    "Hypothesis RuleBasedStateMachine (seeded with VERIF_SEED) over a fixed pool of 73 queries: 14 set_index and 8 sort_values variants on two frames (divisions LRU, capacity 10), 14 "
     "(npartitions, sort) variants of ONE pandas object and 6 repartition(pdf, divisions) variants (per-frame division cache, capacity 10), repartition(partition_size) variants, parquet "
     "reads of 2 datasets with both readers (plan / statistics / dataset-info caches) incl. projections, filters and len, and ordinary queries sharing sub-expressions with them. Rules: build, "
     "optimize, keep an optimized plan and observe it later, compute, observe divisions, len, discard + gc.collect(), compute with an injected task failure (must surface), rewrite a parquet dataset under the same path, re-optimize. Oracle: "
@@ -47,9 +47,12 @@ def frame(which):
 
 
 def dataset_rows(version):
+    """Every version has the same shape and the same multiset of values per column (only permuted / shifted), so a
+    rewrite usually keeps the byte size of every file: a cache keyed on (path, size) alone goes stale."""
     rs = np.random.RandomState(100 + version)
-    n = 12 + 3 * version
-    return pd.DataFrame({"k": rs.permutation(n) % 4, "v": (rs.rand(n) * 10).round(2), "rid": np.arange(n) + 1000 * version}, index=pd.Index(np.arange(n), name="ix"))
+    n = 12
+    base_v = np.array([0.5, 1.5, 2.5, 3.5, 4.5, 5.5, 6.5, 7.5, 8.5, 9.5, 2.25, 7.75])
+    return pd.DataFrame({"k": rs.permutation(np.arange(n) % 4), "v": rs.permutation(base_v), "rid": np.arange(n) + 1000 * (version % 7)}, index=pd.Index(np.arange(n) + 3 * (version % 7), name="ix"))
 
 
 def pool():
@@ -77,6 +80,9 @@ def pool():
             add(f"pq-{reader}-{ds}-full", (lambda reader, ds: lambda c: c.read(ds, reader))(reader, ds))
             add(f"pq-{reader}-{ds}-proj-filter", (lambda reader, ds: lambda c: (lambda r: r[r.v > 3][["rid", "k"]])(c.read(ds, reader)))(reader, ds))
             add(f"pq-{reader}-{ds}-sum", (lambda reader, ds: lambda c: c.read(ds, reader).v.sum())(reader, ds))
+            add(f"pq-{reader}-{ds}-div", (lambda reader, ds: lambda c: c.read(ds, reader, calculate_divisions=True))(reader, ds), ordered=True)
+            add(f"pq-{reader}-{ds}-div-loc", (lambda reader, ds: lambda c: c.read(ds, reader, calculate_divisions=True).loc[5:11])(reader, ds), ordered=True)
+            add(f"pq-{reader}-{ds}-len-proj", (lambda reader, ds: lambda c: c.read(ds, reader)[["k"]])(reader, ds))
     add("shared-sub-1", lambda c: (lambda d: d[d.a > 5].b.sum() + d.c.max())(c.df(0, 4)), cache=False)
     add("shared-sub-2", lambda c: (lambda d: d.assign(z=d.a - d.a.mean())[["z", "rid"]])(c.df(0, 4)), ordered=True, cache=False)
     add("groupby", lambda c: c.df(1, 4).groupby("e").c.mean(), cache=False)
@@ -125,11 +131,11 @@ class Ctx:
             shutil.rmtree(p)
         dx.from_pandas(dataset_rows(version + 10 * ds), npartitions=3).to_parquet(p)
 
-    def read(self, ds, reader):
+    def read(self, ds, reader, **extra):
         import dask_expr as dx
 
         kw = {"filesystem": "arrow"} if reader == "arrow" else {}
-        return dx.read_parquet(self.path(ds), **kw)
+        return dx.read_parquet(self.path(ds), **kw, **extra)
 
 
 def observe(coll, what):
@@ -153,7 +159,8 @@ WHATS = ["compute", "divisions", "len", "plan"]
 def _ref_dir():
     sha = subprocess.run(["git", "-C", "/repo", "rev-parse", "HEAD"], capture_output=True, text=True).stdout.strip()[:10]
     dirty = hashlib.sha1(subprocess.run(["git", "-C", "/repo", "diff"], capture_output=True, text=True).stdout.encode()).hexdigest()[:8]
-    d = os.path.join(VERIF_ROOT, ".work", f"c15-refs-{sha}-{dirty}-{os.environ.get('VERIF_C15_RUN', '0')}")
+    me = hashlib.sha1(open(__file__, "rb").read()).hexdigest()[:8]  # the pool / datasets are defined in this file
+    d = os.path.join(VERIF_ROOT, ".work", f"c15-refs-{sha}-{dirty}-{me}")
     os.makedirs(d, exist_ok=True)
     return d
 
@@ -374,6 +381,18 @@ class Session:
                 self.failures.append(Failure("stale-after-rewrite", f"reading dataset {ds} with {reader} after it was rewritten raised {type(e).__name__}: {e}", exc=e, extra={"history": list(self.history)}).record())
                 raise AssertionError(self.failures[-1]["detail"])
             d = equiv(got.sort_values("rid"), exp.sort_values("rid"), order=True, index=True, dtypes="kindpromo")
+            if d is None:
+                try:
+                    rd = self.ctx.read(ds, reader, calculate_divisions=True)
+                    lo, hi = int(exp.index[2]), int(exp.index[8])
+                    gl = rd.loc[lo:hi].compute()
+                    d = equiv(gl.sort_values("rid"), exp.loc[lo:hi].sort_values("rid"), order=True, index=True, dtypes="kindpromo")
+                    if d is not None:
+                        d = f"loc[{lo}:{hi}] with calculate_divisions=True (divisions {rd.divisions}): {d}"
+                    elif len(self.ctx.read(ds, reader)) != len(exp):
+                        d = f"len() reports {len(self.ctx.read(ds, reader))}, new contents have {len(exp)} rows"
+                except Exception as e:
+                    d = f"calculate_divisions=True / loc after rewrite raised {type(e).__name__}: {e}"
             self.nontrivial.add(f"pq-{reader}-{ds}:reread:rewrite")
             if d is not None:
                 self.failures.append(Failure("stale-after-rewrite", f"dataset {ds} re-read with {reader} after rewrite (version {version}) does not show the new contents: {d}",
@@ -401,7 +420,8 @@ HAND = [
     [["build", [i]] for i in range(0, 14)] + [["observe", [0, 0]], ["observe", [1, 1]], ["observe", [0, 3]]],
     [["observe", [0, 0]]] + [["optimize", [i]] for i in range(1, 22)] + [["observe", [0, 0]], ["observe", [0, 1]]],
     [["observe", [22, 0]]] + [["build", [i]] for i in range(23, 36)] + [["observe", [22, 0]], ["observe", [22, 1]], ["observe", [30, 0]]],
-    [["observe", [45, 0]], ["rewrite", [0, 0]], ["observe", [45, 0]], ["observe", [46, 0]], ["observe", [48, 0]], ["rewrite", [0, 1]], ["observe", [46, 2]], ["observe", [48, 0]]],
+    [["observe", [45, 0]], ["observe", [48, 0]], ["observe", [49, 1]], ["observe", [60, 0]], ["observe", [61, 0]], ["observe", [60, 1]], ["rewrite", [0, 0]], ["observe", [45, 0]], ["observe", [48, 0]], ["observe", [49, 0]],
+     ["observe", [60, 1]], ["observe", [61, 0]], ["observe", [62, 2]], ["rewrite", [0, 1]], ["observe", [48, 1]], ["observe", [61, 0]], ["observe", [60, 0]], ["rewrite", [0, 2]], ["observe", [61, 0]], ["observe", [49, 0]]],
     [["build", [3]], ["fail", [3]], ["observe", [3, 0]], ["fail", [22]], ["observe", [22, 0]], ["discard", [3]], ["observe", [3, 0]], ["observe", [3, 1]]],
     [["observe", [36 + j, 0]] for j in range(6)] + [["observe", [36, 1]], ["observe", [41, 0]]],
     [["observe", [42 + j, 0]] for j in range(3)] + [["observe", [42 + j, 2]] for j in range(3)],
